@@ -1682,9 +1682,10 @@ def inverse_consistency_loss(
     if reduction != "none":
         count = error.numel()
         error = error.sum()
-        if reduction == "mean" and mask is not None:
-            count = (mask != 0).sum()
-        error /= count
+        if reduction == "mean":
+            if mask is not None:
+                count = (mask != 0).sum()
+            error /= count
     return error
 
 
